@@ -740,3 +740,286 @@ M("M45d", "add_line appends before checking supports_multi_line",
         }
         if line.starts_with(&self.whitespaces) {""")],
   {"C15": ["R15.2"]})
+
+# ------------------------------------------------------------------ neutral patches: behaviour-preserving edits, every rule must stay silent
+M("N01", "rename locals in write_temp_file",
+  [(IO, """        let export_file = self.work_dir.try_resolve(&p, true).map_err(|e| {
+            e.change_context(make_error!(self, PpErrorKind::WriteFile))
+                .attach_printable(format!("could not resolve temp file: `{}`", p.display()))
+        })?;
+        if export_file.as_path().is_dir() {
+            return Err(Report::new(make_error!(self, PpErrorKind::WriteFile))
+                .attach_printable(format!("cannot write to directory: `{export_file}`")));
+        }
+        // Check if the temp file already exists and has the same content
+        if export_file.as_path().exists() {
+            let current_content = fs::read(&export_file)
+                .change_context_lazy(|| make_error!(self, PpErrorKind::ReadFile))
+                .attach_printable_lazy(|| {
+                    format!("could not read existing temp file: `{export_file}`")
+                })?; // early return because if we can't read it, we probably can't write it either
+            if current_content == contents.as_bytes() {
+                log::debug!("temp file already exists with same content, skipping");
+                return Ok(());
+            }
+        }
+
+        fs::write(&export_file, contents)
+            .change_context_lazy(|| make_error!(self, PpErrorKind::WriteFile))
+            .attach_printable_lazy(|| format!("could not write temp file: `{export_file}`"))""", """        let target = self.work_dir.try_resolve(&p, true).map_err(|e| {
+            e.change_context(make_error!(self, PpErrorKind::WriteFile))
+                .attach_printable(format!("could not resolve temp file: `{}`", p.display()))
+        })?;
+        if target.as_path().is_dir() {
+            return Err(Report::new(make_error!(self, PpErrorKind::WriteFile))
+                .attach_printable(format!("cannot write to directory: `{target}`")));
+        }
+        // Check if the temp file already exists and has the same content
+        if target.as_path().exists() {
+            let old = fs::read(&target)
+                .change_context_lazy(|| make_error!(self, PpErrorKind::ReadFile))
+                .attach_printable_lazy(|| {
+                    format!("could not read existing temp file: `{target}`")
+                })?; // early return because if we can't read it, we probably can't write it either
+            if old == contents.as_bytes() {
+                log::debug!("temp file already exists with same content, skipping");
+                return Ok(());
+            }
+        }
+
+        fs::write(&target, contents)
+            .change_context_lazy(|| make_error!(self, PpErrorKind::WriteFile))
+            .attach_printable_lazy(|| format!("could not write temp file: `{target}`"))""")],
+  {})
+M("N02", "hoist the .txtpp refusal into a helper fn + `?`",
+  [(PP, """        if PathBuf::from(export_file).is_txtpp_file() {
+            return Err(Report::new(self.context.make_error(PpErrorKind::Directive))
+                .attach_printable(format!(
+                "invalid temp directive: export file path cannot be a txtpp file: `{export_file}`"
+            )));
+        }
+""", """        self.ensure_not_txtpp(export_file)?;
+"""),
+   (PP, """    fn format_directive_output(
+        &mut self,""", """    fn ensure_not_txtpp(&self, export_file: &str) -> Result<(), PpError> {
+        if PathBuf::from(export_file).is_txtpp_file() {
+            return Err(Report::new(self.context.make_error(PpErrorKind::Directive))
+                .attach_printable(format!(
+                "invalid temp directive: export file path cannot be a txtpp file: `{export_file}`"
+            )));
+        }
+        Ok(())
+    }
+
+    fn format_directive_output(
+        &mut self,""")],
+  {})
+M("N03", "matches!(self.mode, Mode::Clean) -> self.mode == Mode::Clean",
+  [(PP, "        if self.tag_state.has_tags() && !matches!(self.mode, Mode::Clean) {", "        if self.tag_state.has_tags() && self.mode != Mode::Clean {"),
+   (PP, "        if self.is_err() && matches!(mode, Mode::Clean) {", "        if self.is_err() && *mode == Mode::Clean {")],
+  {})
+M("N04", "fs::write -> File::create + write_all in done/InMemoryBuild",
+  [(IO, """                fs::write(path.as_path(), out)
+                    .change_context_lazy(|| make_error!(self, PpErrorKind::WriteFile))""", """                File::create(path.as_path())
+                    .and_then(|mut f| f.write_all(out.as_bytes()))
+                    .change_context_lazy(|| make_error!(self, PpErrorKind::WriteFile))""")],
+  {})
+M("N05", "if let <-> match in execute_directive / execute_in_clean_mode",
+  [(PP, """        if let Mode::Clean = self.mode {
+            // Ignore error if in clean mode
+            let _ = self.execute_in_clean_mode(d);
+            return Ok(None);
+        }""", """        match self.mode {
+            Mode::Clean => {
+                // Ignore error if in clean mode
+                let _ = self.execute_in_clean_mode(d);
+                return Ok(None);
+            }
+            _ => {}
+        }"""),
+   (PP, """        if let DirectiveType::Temp = d.directive_type {
+            self.execute_directive_temp(d.args, true)?;
+        }
+        Ok(())""", """        match d.directive_type {
+            DirectiveType::Temp => self.execute_directive_temp(d.args, true),
+            _ => Ok(()),
+        }""")],
+  {})
+M("N06", "reorder independent statements in IOCtx::new (work_dir before output)",
+  [(IO, """        let out = CtxOut::new(mode, &input_path, &output_path)?;
+
+        let work_dir = input_file.parent().map_err(|e| {
+            e.change_context(Self::make_error_with_kind(
+                input_path.clone(),
+                PpErrorKind::OpenFile,
+            ))
+            .attach_printable(format!(
+                "cannot get working directory for input file: {}",
+                input_file
+            ))
+        })?;
+""", """        let work_dir = input_file.parent().map_err(|e| {
+            e.change_context(Self::make_error_with_kind(
+                input_path.clone(),
+                PpErrorKind::OpenFile,
+            ))
+            .attach_printable(format!(
+                "cannot get working directory for input file: {}",
+                input_file
+            ))
+        })?;
+
+        let out = CtxOut::new(mode, &input_path, &output_path)?;
+""")],
+  {})
+M("N07", "trim_matches(char::is_whitespace) -> trim()",
+  [(DFROM, "arg.trim_matches(char::is_whitespace)", "arg.trim()")],
+  {})
+M("N08", "an extra cosmetic status line in the coordinator",
+  [(EX, """        let mut dep_mgr = DepManager::new();""", """        let _ = self.progress.print_status(verbs::USING, "dependency manager", Color::Yellow, true);
+        let mut dep_mgr = DepManager::new();""")],
+  {})
+M("N09", "`?` -> explicit match in Pp::run_internal (done)",
+  [(PP, """        self.context.done()?;
+
+        Ok(PpResult::Ok(self.input_file))""", """        match self.context.done() {
+            Ok(()) => {}
+            Err(e) => return Err(e),
+        }
+
+        Ok(PpResult::Ok(self.input_file))""")],
+  {})
+M("N10", "an extra log::debug! in the worker closure",
+  [(EX, """            let result = preprocess(&shell, &file, mode, is_first_pass, trailing_newline);
+            send.send(TaskResult::Preprocess(result))""", """            let result = preprocess(&shell, &file, mode, is_first_pass, trailing_newline);
+            log::debug!("task for {file} finished, ok = {}", result.is_ok());
+            send.send(TaskResult::Preprocess(result))""")],
+  {})
+M("N11", "extract the ThreadPool::execute call into a spawn_task helper",
+  [(EX, """        self.threadpool.execute(move || {
+            let result = preprocess(&shell, &file, mode, is_first_pass, trailing_newline);
+            send.send(TaskResult::Preprocess(result))
+                .expect("cannot send result")
+        });
+        Ok(())
+    }
+}""", """        self.spawn_task(send, shell, file, mode, is_first_pass, trailing_newline);
+        Ok(())
+    }
+
+    fn spawn_task(
+        &self,
+        send: mpsc::Sender<TaskResult>,
+        shell: Arc<Shell>,
+        file: AbsPath,
+        mode: Mode,
+        is_first_pass: bool,
+        trailing_newline: bool,
+    ) {
+        self.threadpool.execute(move || {
+            let result = preprocess(&shell, &file, mode, is_first_pass, trailing_newline);
+            send.send(TaskResult::Preprocess(result))
+                .expect("cannot send result")
+        });
+    }
+}""")],
+  {})
+M("N12", "File::create -> equivalent truncating OpenOptions chain (Build output)",
+  [(IO, "                let out = File::create(output_path)", "                let out = fs::OpenOptions::new().write(true).create(true).truncate(true).open(output_path)")],
+  {})
+M("N13", "inline execute_in_clean_mode into execute_directive",
+  [(PP, """            // Ignore error if in clean mode
+            let _ = self.execute_in_clean_mode(d);
+            return Ok(None);""", """            // Ignore error if in clean mode
+            if let DirectiveType::Temp = d.directive_type {
+                let _ = self.execute_directive_temp(d.args, true);
+            }
+            return Ok(None);""")],
+  {})
+M("N15", "`*rem < len` -> `len > *rem`; `buf != x` -> `!(buf == x)`",
+  [(IO, "                if *rem < len {", "                if len > *rem {"),
+   (IO, "                if buf != output.as_bytes() {", "                if !(buf == output.as_bytes()) {")],
+  {})
+M("N17", "different error message and an extra attach_printable context on the flush error",
+  [(IO, """                .attach_printable_lazy(|| format!("could not write to `{}`", path.display())),""", """                .attach_printable_lazy(|| format!("flushing `{}` failed", path.display()))
+                .attach_printable("is the disk full?"),""")],
+  {})
+M("N20", "swap the is_dir / exists checks order is kept but exists computed once into a local",
+  [(IO, """        if export_file.as_path().exists() {
+            let current_content = fs::read(&export_file)""", """        let already_there = export_file.as_path().exists();
+        if already_there {
+            let current_content = fs::read(&export_file)""")],
+  {})
+M("N22", "first-pass dedup with contains() + insert()",
+  [(EX, """            if !self.files.insert(file.clone()) {
+                return Ok(());
+            }""", """            if self.files.contains(&file) {
+                return Ok(());
+            }
+            self.files.insert(file.clone());""")],
+  {})
+M("N25", "Shell::run: early return on failure instead of if/else",
+  [(SH, """        if result.status.success() {
+            let output = String::from_utf8_lossy(&result.stdout).to_string();
+            log::debug!("shell output `{output}`");
+            Ok(output)
+        } else {
+            let exit_code = match result.status.code() {
+                Some(code) => code.to_string(),
+                None => "unknown".to_string(),
+            };
+            Err(
+                Report::new(ShellError::ExecuteError).attach_printable(format!(
+                    "Subcommand `{}` failed with exit code {}: {}",
+                    command,
+                    exit_code,
+                    String::from_utf8_lossy(&result.stderr)
+                )),
+            )
+        }""", """        if !result.status.success() {
+            let exit_code = match result.status.code() {
+                Some(code) => code.to_string(),
+                None => "unknown".to_string(),
+            };
+            return Err(
+                Report::new(ShellError::ExecuteError).attach_printable(format!(
+                    "Subcommand `{}` failed with exit code {}: {}",
+                    command,
+                    exit_code,
+                    String::from_utf8_lossy(&result.stderr)
+                )),
+            );
+        }
+        let output = String::from_utf8_lossy(&result.stdout).to_string();
+        log::debug!("shell output `{output}`");
+        Ok(output)""")],
+  {})
+M("N26", "main: match on env::var with a guard instead of nested ifs",
+  [(MAIN, """    if let Ok(f) = env::var(TXTPP_FILE) {
+        if !f.is_empty() {
+            eprintln!("Cannot run txtpp as a subcommand!");
+            return ExitCode::FAILURE;
+        }
+    }""", """    match env::var(TXTPP_FILE) {
+        Ok(f) if !f.is_empty() => {
+            eprintln!("Cannot run txtpp as a subcommand!");
+            return ExitCode::FAILURE;
+        }
+        _ => {}
+    }""")],
+  {})
+M("N27", "num_threads guard written as `< 1`",
+  [(EX, "        if config.num_threads == 0 {", "        if config.num_threads < 1 {")],
+  {})
+M("N28", "coordinator: `while let`-free loop kept, but add_done moved into a helper method",
+  [(EX, """            let _ = self.progress.add_done(1);
+
+            match data {""", """            self.count_done();
+
+            match data {"""),
+   (EX, """    fn execute_directory(&mut self, dir: AbsPath, recursive: bool) {""", """    fn count_done(&mut self) {
+        let _ = self.progress.add_done(1);
+    }
+
+    fn execute_directory(&mut self, dir: AbsPath, recursive: bool) {""")],
+  {})
